@@ -2,7 +2,7 @@
    bookkeeping, table keyed); this file adds the statements that combine them. *)
 From Coq Require Import ZArith List Bool Lia Permutation.
 From FV Require Import Lib.RustInt C18.Model.
-From FV Require Export C18.GkProofs.
+From FV Require Export C18.GkProofs C18.Bits.
 Import ListNotations.
 Open Scope Z_scope.
 
